@@ -50,7 +50,8 @@ pub proof fn lemma_digits_len_step(s: Seq<u8>, at: int, k: nat)
     decreases k
 {
     if k > 0 {
-        assert(is_digit(s[at]) && 0 <= at < s.len());
+        assert(is_digit(s[at]));
+        assert(0 <= at < s.len());
         lemma_digits_len_step(s, at + 1, (k - 1) as nat);
     }
 }
@@ -98,6 +99,30 @@ pub proof fn lemma_dec_lt_pow10(s: Seq<u8>, at: int, n: nat)
     if n > 0 { lemma_dec_lt_pow10(s, at, (n - 1) as nat); }
 }
 
+pub proof fn lemma_dec_window(s: Seq<u8>, p: int, b: Seq<u8>, n: nat)
+    requires 0 <= p, n <= b.len(), p + b.len() <= s.len(), forall|i: int| 0 <= i < b.len() ==> b[i] == s[p + i]
+    ensures dec(s, p, n) == dec(b, 0, n)
+    decreases n
+{
+    if n > 0 { lemma_dec_window(s, p, b, (n - 1) as nat); }
+}
+
+// dec only depends on the bytes it covers
+pub proof fn lemma_dec_same(s: Seq<u8>, t: Seq<u8>, at: int, n: nat)
+    requires 0 <= at, at + n <= s.len(), at + n <= t.len(), forall|i: int| at <= i < at + n ==> s[i] == t[i]
+    ensures dec(s, at, n) == dec(t, at, n)
+    decreases n
+{
+    if n > 0 { lemma_dec_same(s, t, at, (n - 1) as nat); }
+}
+
+pub proof fn lemma_mul_ge(a: int, b: int)
+    requires a >= 0, b >= 1
+    ensures a * b >= a
+{
+    assert(a * b >= a) by (nonlinear_arith) requires a >= 0, b >= 1;
+}
+
 // ------------------------------------------------------------------ little-endian words (R3d)
 pub open spec fn le_bytes(w: u64) -> Seq<u8> {
     seq![(w & 0xff) as u8, ((w >> 8) & 0xff) as u8, ((w >> 16) & 0xff) as u8, ((w >> 24) & 0xff) as u8,
@@ -109,7 +134,9 @@ pub open spec fn le_bytes(w: u64) -> Seq<u8> {
 #[verifier::external_body]
 pub fn load8_le(p: *const u8, o: usize) -> (r: u64)
     requires o + 8 <= ptr_window(p).len(),
-    ensures le_bytes(r) == ptr_window(p).subrange(o as int, o + 8),
+    ensures
+        le_bytes(r) == ptr_window(p).subrange(o as int, o + 8),
+        forall|i: int| 0 <= i < 8 ==> #[trigger] le_bytes(r)[i] == ptr_window(p)[o + i],
 { unsafe { u64::from_le_bytes(*(p.add(o) as *const [u8; 8])) } }
 
 pub proof fn lemma_le_bytes_shift(w: u64)
